@@ -347,6 +347,10 @@ func (st *SymbolTable) DisableBuiltin(names ...string) {
 
 	for _, n := range names {
 		root.disabledBuiltins[n] = struct{}{}
+		// drop the symbol Resolve cached while the builtin was enabled
+		if s, ok := root.store[n]; ok && s.Scope == ScopeBuiltin {
+			delete(root.store, n)
+		}
 	}
 }
 
